@@ -405,7 +405,8 @@ class Header(SimpleNamespace):
 
 class FieldStorage:
 
-    _patt = re.compile('(.+?)(=(.+?))?(;|$)')
+    # a quoted parameter value may contain `;` and `=`
+    _patt = re.compile('(.+?)(=("[^"]*"|.+?))?(;|$)')
 
     name: str
     value: Optional[str]
